@@ -22,6 +22,7 @@ import (
 	"errors"
 	"fmt"
 
+	"github.com/ontio/ontology-crypto/keypair"
 	"github.com/polynetwork/poly/common"
 	"github.com/polynetwork/poly/common/constants"
 	"github.com/polynetwork/poly/common/log"
@@ -52,6 +53,19 @@ func VerifyTransactionWithLedger(tx *types.Transaction, ledger *ledger.Ledger) o
 	return ontErrors.ErrNoError
 }
 
+// hasDuplicateKeys reports whether a key occurs twice in the list (compared by canonical encoding)
+func hasDuplicateKeys(keys []keypair.PublicKey) bool {
+	seen := make(map[string]bool, len(keys))
+	for _, k := range keys {
+		id := string(keypair.SerializePublicKey(k))
+		if seen[id] {
+			return true
+		}
+		seen[id] = true
+	}
+	return false
+}
+
 func checkTransactionSignatures(tx *types.Transaction) error {
 	hash := tx.Hash()
 
@@ -78,6 +92,9 @@ func checkTransactionSignatures(tx *types.Transaction) error {
 
 			address[types.AddressFromPubKey(sig.PubKeys[0])] = true
 		} else {
+			if hasDuplicateKeys(sig.PubKeys) {
+				return errors.New("duplicate public key in multi-signature entry")
+			}
 			if err := signature.VerifyMultiSignature(hash[:], sig.PubKeys, m, sig.SigData); err != nil {
 				return err
 			}
